@@ -1316,8 +1316,8 @@ class ASTStubGenerator(BaseStubGenerator, mypy.traverser.TraverserVisitor):
             if (
                 isinstance(annotation, UnboundType)
                 and not annotation.args
-                and annotation.name == "Final"
-                and self.import_tracker.module_for.get("Final") in self.TYPING_MODULE_NAMES
+                and self.resolve_name(annotation.name)
+                in ("typing.Final", "typing_extensions.Final")
             ):
                 # Final without type argument is invalid in stubs.
                 final_arg = self.get_str_type_of_node(rvalue)
